@@ -259,3 +259,93 @@ Qed.
 (* with a select that times out, main + handler + main reach the exit from every state *)
 Lemma prompt_with_timeout s : pexit (prun true s [PMain; PHandler; PMain; PHandler; PMain]) = true.
 Proof. destruct s as [[|] [|] [|]]; vm_compute; reflexivity. Qed.
+
+(* ------------------------------------------------------------------ promptness, general form *)
+Lemma pstep_gen_false_is_pstep t s e : pstep_gen t false s e = pstep t s e.
+Proof. unfold pstep_gen, pstep. destruct (pexit s); [reflexivity|]. destruct e; reflexivity. Qed.
+
+(* with the timeout alone: main leaves its wait and re-enters it (two main steps) before the
+   handler is scheduled — for ever *)
+Lemma prompt_timeout_alone_starves k :
+  pexit (prun_gen true false pblocked0 (concat (repeat [PMain; PMain; PHandler] k))) = false
+  /\ hdone (prun_gen true false pblocked0 (concat (repeat [PMain; PMain; PHandler] k))) = false.
+Proof.
+  assert (H : forall k, prun_gen true false pblocked0 (concat (repeat [PMain; PMain; PHandler] k)) = pblocked0).
+  { clear k. induction k as [|k IH]; [reflexivity|].
+    replace (S k) with (k + 1) by (rewrite Nat.add_comm; reflexivity).
+    rewrite repeat_app, concat_app. unfold prun_gen in *. rewrite fold_left_app, IH. reflexivity. }
+  rewrite H. split; reflexivity.
+Qed.
+
+(* with both features: once the handler has taken its first step, [hdone] stays set ... *)
+Lemma pgen_hdone_stays evs : forall s, hdone s = true -> pexit s = false ->
+  let s' := prun_gen true true s evs in pexit s' = true \/ hdone s' = true.
+Proof.
+  induction evs as [|e evs IH]; intros s Hd Hx; cbn [prun_gen fold_left]; [right; exact Hd|].
+  fold (prun_gen true true (pstep_gen true true s e) evs).
+  destruct (pexit (pstep_gen true true s e)) eqn:Ex.
+  - left. clear IH. revert Ex. generalize (pstep_gen true true s e). intros s1 E1.
+    induction evs as [|e' evs IH']; [exact E1|]. cbn [prun_gen fold_left].
+    assert (pstep_gen true true s1 e' = s1) as -> by (unfold pstep_gen; rewrite E1; reflexivity).
+    exact IH'.
+  - apply IH; [|exact Ex].
+    unfold pstep_gen in *. rewrite Hx in *. destruct e; cbn in *; try exact Hd; try reflexivity.
+    destruct (blocked s); cbn in *; [exact Hd|]. rewrite Hd in *. cbn in Ex. discriminate.
+Qed.
+
+(* ... and two steps of main, wherever they fall among any other events, reach the exit *)
+Lemma prompt_both_after_handler evs : forall s, hdone s = true ->
+  2 <= count_main evs -> pexit (prun_gen true true s evs) = true.
+Proof.
+  assert (Hstay : forall evs s, pexit s = true -> pexit (prun_gen true true s evs) = true).
+  { induction evs0 as [|e' evs0 IH']; intros s1 E1; [exact E1|]. cbn [prun_gen fold_left].
+    fold (prun_gen true true (pstep_gen true true s1 e') evs0).
+    assert (pstep_gen true true s1 e' = s1) as -> by (unfold pstep_gen; rewrite E1; reflexivity).
+    apply IH'; exact E1. }
+  (* generalise over the number of main steps still needed: 2 if blocked, 1 if not *)
+  assert (G : forall evs s, hdone s = true ->
+              (if blocked s then 2 else 1) <= count_main evs -> pexit (prun_gen true true s evs) = true).
+  { induction evs0 as [|e evs0 IH]; intros s Hd Hc.
+    - cbn in Hc. destruct (blocked s); inversion Hc.
+    - cbn [prun_gen fold_left]. fold (prun_gen true true (pstep_gen true true s e) evs0).
+      destruct (pexit s) eqn:Hx.
+      { apply Hstay. unfold pstep_gen. rewrite Hx. exact Hx. }
+      unfold count_main in Hc. cbn [filter] in Hc.
+      destruct e; cbn [length] in Hc; fold (count_main evs0) in Hc.
+      + (* PHandler *) apply IH.
+        * unfold pstep_gen. rewrite Hx. reflexivity.
+        * unfold pstep_gen. rewrite Hx. cbn. exact Hc.
+      + (* PMain *) unfold pstep_gen. rewrite Hx. destruct (blocked s) eqn:Hb.
+        * apply IH; cbn; [exact Hd|]. apply le_S_n. exact Hc.
+        * rewrite Hd. apply Hstay. reflexivity.
+      + (* silent *) apply IH.
+        * unfold pstep_gen. rewrite Hx. exact Hd.
+        * unfold pstep_gen. rewrite Hx. exact Hc.
+      + (* send *) apply IH.
+        * unfold pstep_gen. rewrite Hx. exact Hd.
+        * unfold pstep_gen. rewrite Hx. cbn. destruct (blocked s); [|exact Hc].
+          apply le_S_n. apply le_S. exact Hc. }
+  intros s Hd Hc. apply G; [exact Hd|]. destruct (blocked s); [exact Hc|].
+  apply le_S_n. apply le_S. exact Hc.
+Qed.
+
+Theorem prompt_both_all_schedules s evs1 evs2 :
+  2 <= count_main evs2 ->
+  pexit (prun_gen true true s (evs1 ++ PHandler :: evs2)) = true.
+Proof.
+  intros Hc. unfold prun_gen. rewrite fold_left_app. cbn [fold_left].
+  fold (prun_gen true true s evs1). set (s1 := prun_gen true true s evs1).
+  fold (prun_gen true true (pstep_gen true true s1 PHandler) evs2).
+  destruct (pexit s1) eqn:Hx.
+  - assert (pstep_gen true true s1 PHandler = s1) as -> by (unfold pstep_gen; rewrite Hx; reflexivity).
+    clear - Hx. revert s1 Hx. induction evs2 as [|e evs IH]; intros s1 Hx; [exact Hx|].
+    cbn [prun_gen fold_left]. fold (prun_gen true true (pstep_gen true true s1 e) evs).
+    assert (pstep_gen true true s1 e = s1) as -> by (unfold pstep_gen; rewrite Hx; reflexivity).
+    apply IH; exact Hx.
+  - apply prompt_both_after_handler; [|exact Hc]. unfold pstep_gen. rewrite Hx. reflexivity.
+Qed.
+
+Example prompt_both_example :
+  pexit (prun_gen true true pblocked0 [PWorkerSilent; PHandler; PWorkerSilent; PMain; PWorkerSilent; PMain]) = true
+  /\ count_main [PWorkerSilent; PMain; PWorkerSilent; PMain] = 2.
+Proof. vm_compute. split; reflexivity. Qed.
